@@ -79,6 +79,16 @@ def strJoin : List Str → Str → Str
   | [a], _ => a
   | a :: b :: rest, sep => a ++ sep ++ strJoin (b :: rest) sep
 
+/-- `strings.Split(s, sep)` for a non-empty separator: `skip` characters of a separator just found are still to pass -/
+def strSplitAux (sep : Str) : Nat → Str → Str → List Str
+  | _, [], cur => [cur.reverse]
+  | skip + 1, _ :: cs, cur => strSplitAux sep skip cs cur
+  | 0, c :: cs, cur =>
+    if sep.isPrefixOf (c :: cs) then cur.reverse :: strSplitAux sep (sep.length - 1) cs []
+    else strSplitAux sep 0 cs (c :: cur)
+
+def strSplit (s sep : Str) : List Str := strSplitAux sep 0 s []
+
 /-- `strings.Trim(s, cutset)` -/
 def strTrim (s cutset : Str) : Str :=
   ((s.dropWhile (cutset.contains ·)).reverse.dropWhile (cutset.contains ·)).reverse
